@@ -1538,7 +1538,49 @@ def chunks_iteration(repo, tier):
         cs = [cnt == cnt0 + lc.i]
         if lc.seq is not None:
             cs.append(lc.seq.length == n / 16)
+        else:
+            # `while` form: the loop's own counters advance by a constant per iteration (x == x@entry + step * i, read off the
+            # body), and never more than len/16 values have been yielded (with the negated test this gives the count at exit)
+            cs += counters(lc)
+            cs.append(16 * cnt <= n)
         return z3.And(cs)
+
+    def counters(lc):
+        import ast
+        fn = lc.ex.cur_fn_stack[-1]
+        loops = sorted([x for x in ast.walk(fn) if isinstance(x, (ast.For, ast.While))], key=lambda x: (x.lineno, x.col_offset))
+        if not loops:
+            return []
+        body = loops[0].body
+        stored = lc.ex.assigned_names(body)
+
+        def const_of(e):
+            if isinstance(e, ast.Constant) and isinstance(e.value, int) and not isinstance(e.value, bool):
+                return e.value
+            if isinstance(e, ast.Name) and e.id not in stored:
+                v = lc.entry.lookup(e.id)
+                return v.const() if isinstance(v, VInt) else None
+            return None
+        out = []
+        for st_ in body:
+            name = step = None
+            if isinstance(st_, ast.AugAssign) and isinstance(st_.op, (ast.Add, ast.Sub)) and isinstance(st_.target, ast.Name):
+                k = const_of(st_.value)
+                if k is not None:
+                    name, step = st_.target.id, (k if isinstance(st_.op, ast.Add) else -k)
+            elif isinstance(st_, ast.Assign) and len(st_.targets) == 1 and isinstance(st_.targets[0], ast.Name) \
+                    and isinstance(st_.value, ast.BinOp) and isinstance(st_.value.op, ast.Add):
+                for x, y in ((st_.value.left, st_.value.right), (st_.value.right, st_.value.left)):
+                    if isinstance(x, ast.Name) and x.id == st_.targets[0].id and const_of(y) is not None:
+                        name, step = x.id, const_of(y)
+                        break
+            if name is None or sum(1 for z_ in ast.walk(ast.Module(body=body, type_ignores=[])) if isinstance(z_, ast.Name) and z_.id == name and isinstance(z_.ctx, ast.Store)) != 1:
+                continue
+            v0, v1 = lc.entry.lookup(name), lc.st.lookup(name)
+            if v0 is None or v1 is None:
+                continue
+            out.append(ops.int_term(v1) == ops.int_term(v0) + step * lc.i)
+        return out
 
     def inv_point(lc, j):
         """every value yielded so far is a block of the input: the j-th one is the 16 bytes data[16j .. 16j+15]"""
